@@ -238,6 +238,8 @@ func main() {
 	genSkeletons(*repo, *out)
 	genShared(*repo, *out)
 	genJs(*repo, *out)
+	genJsGates(*repo, *out)
+	genCli(*repo, *out)
 }
 
 func genTables(repo, out string) {
